@@ -168,9 +168,12 @@ def rand_val(rnd, a, depth=4):
 
 def _hashable_ok(v):
     """the Python value of the term can be built (set elements / dict keys hashable and distinct)"""
+    def count(t):
+        return 1 + sum(count(x) for x in t["xs"])
+
     try:
-        val_to_py(v)
-        return True
+        # ... and nothing collapses ({True, 1} is one element in Python): the term has to survive the round trip
+        return count(py_to_val(val_to_py(v))) == count(v)
     except Exception:  # noqa: BLE001
         return False
 
